@@ -526,7 +526,7 @@ def run_kinds(check: core.Check, quick: bool, rnd: random.Random, emit_future: A
     if not cases:
         raise core.MachineryError("no callable-kind cases emitted by TLC")
     n_model = len(cases)
-    cases, exhaustive = _kinds_sample(cases, 9000 if quick else 150000, rnd)
+    cases, exhaustive = _kinds_sample(cases, 9000 if quick else 80000, rnd)
     judge_kinds(check, cases, "tlc-kinds", selftest=True)
     kc = check.cov["kinds"]
     kc.update({"model_cases": n_model, "replayed_cases": len(cases), "replay_exhaustive": exhaustive})
@@ -534,7 +534,7 @@ def run_kinds(check: core.Check, quick: bool, rnd: random.Random, emit_future: A
     if missing:
         raise core.MachineryError(f"callable kinds never replayed: {missing}")
     # beyond the exhaustive bound: simulation up to 4 parameters beyond the receiver and wide calls
-    num = 1500 if quick else 40000
+    num = 1500 if quick else 20000
     sim = core.require_ok(
         core.run_tlc("CallableKindsEmit", "CallableKinds.sim.cfg", workers=1, simulate=f"num={num}", depth=12,
                      seed=check.seed + 11, timeout=1800),
@@ -546,8 +546,8 @@ def run_kinds(check: core.Check, quick: bool, rnd: random.Random, emit_future: A
     if len(uniq) < num // 4:
         raise core.MachineryError(f"callable-kinds simulation produced only {len(uniq)} distinct cases")
     sims = list(uniq.values())
-    if len(sims) > (1500 if quick else 40000):
-        sims = rnd.sample(sims, 1500 if quick else 40000)
+    if len(sims) > (1500 if quick else 15000):
+        sims = rnd.sample(sims, 1500 if quick else 15000)
     judge_kinds(check, sims, "tlc-kinds-simulate")
     check.cov["rule"] += "; callable kinds (CallableKinds.tla): see kinds.rule"
     kc["rule"] = (
